@@ -220,6 +220,7 @@ class JinjaInterp:
         # negation of earlier arms of the same block that ended in `continue` / `break`; used to decide, per candidate template of an
         # import alias, whether a call through the alias can be reached at all (dispatch totality)
         self.guards: list[tuple] = []
+        self.blocks: dict[str, tuple] = {}   # deferred `{% set x %}...{% endset %}` captures: id -> (node, env, template, macro)
         self.changed = False
         self.globals: dict[str, AV] = {}
         self.render_kwargs: dict[str, dict[str, AV]] = {}
@@ -566,10 +567,25 @@ class JinjaInterp:
             self.assign_target(n.target, v, env)
             return state
         if isinstance(n, nodes.AssignBlock):
-            # captured output: analysed like an anonymous macro emitted nowhere yet -> keep structure opaque
-            sub_state = self.block(n.body, dict(env), LX.start_state(ti.lang))
-            self.assign_target(n.target, typed("str", labels=[UNKNOWN]), env)
-            self.unsupported["AssignBlock"] = self.unsupported.get("AssignBlock", 0) + 1
+            # `{% set x %}...{% endset %}` captures output.  The capture is kept as a deferred block: wherever `{{ x }}` is emitted the
+            # body is interpreted there, in the lexical state of that place and with the environment of the definition (the body's own
+            # `set`s and macro calls have no other effect than their output).  Any other use of x (filters, tests, concatenation) sees an
+            # opaque string that carries the labels the body can emit.
+            bid = f"{ti.name}:{self.cur_macro}:{n.lineno}"
+            self.blocks[bid] = (n, dict(env), ti, self.cur_macro)
+            if n.filter is not None:
+                self.block(n.body, dict(env), LX.start_state(ti.lang))
+                self.assign_target(n.target, typed("str", labels=[UNKNOWN]), env)
+                self.unsupported["AssignBlock|filter"] = self.unsupported.get("AssignBlock|filter", 0) + 1
+                return state
+            acc: set[str] = set()
+            saved_acc = getattr(self, "_macro_label_acc", None)
+            self._macro_label_acc = acc
+            try:
+                self.block(n.body, dict(env), LX.start_state(ti.lang))
+            finally:
+                self._macro_label_acc = saved_acc
+            self.assign_target(n.target, AV(types=frozenset({"str"}), labels=frozenset(acc), funcs=frozenset({("block", bid)})), env)
             return state
         if isinstance(n, nodes.Import):
             tv = self.ev(n.template, env)
@@ -663,6 +679,16 @@ class JinjaInterp:
     def emit(self, node: nodes.Node, v: AV, state: str, follow: str | None = None) -> str:
         ti = self.cur_t
         assert ti is not None
+        blocks = [f for f in v.funcs if f[0] == "block"]
+        if blocks and isinstance(node, nodes.Name) and len(v.funcs) == len(blocks):
+            ends_b = set()
+            for _k, bid in blocks:
+                bn, benv, _bt, _bm = self.blocks[bid]
+                ends_b.add(self.block(bn.body, dict(benv), state))
+            if len(ends_b) > 1:
+                self.neutrality[(ti.name, self.cur_macro, f"expr {expr_text(node)}")] = \
+                    f"captured blocks emitted by `{expr_text(node)}` leave different lexical states {sorted(ends_b)}"
+            return sorted(ends_b)[0]
         et = expr_text(node)
         okey = (ti.name, self.cur_macro, et)
         # ordinal: n-th distinct occurrence (by node identity) of this expression text in this macro
